@@ -207,7 +207,7 @@ def drive(PositionGrid, alg, N, text, order_seed=0):
             pg = fg.get_position_grid()
             REC.classes["via FullGrid after full getters"] += 1
         else:
-            pg = PositionGrid(o_grid_name=f"{alg}_{N}", t_grid_name=text)
+            pg = PositionGrid(o_grid_name=(f"{alg}_{N}" if order_seed % 4 else f"{N}_{alg}"), t_grid_name=text)   # both spellings of the name
         calls = [pg.get_all_position_volumes, pg.get_adjacency_of_position_grid, pg.get_borders_of_position_grid,
                  pg.get_distances_of_position_grid]
         random.Random(order_seed).shuffle(calls)
